@@ -126,10 +126,12 @@ func errUnhashable(msg any) (runtimeError, bool) {
 
 // newPanic returns a new *PanicError with the given error message.
 func (vm *VM) newPanic(msg any) *PanicError {
+	// vm.pc has already been advanced past the instruction that panicked.
+	info := vm.fn.InstructionInfo[vm.pc-1]
 	return &PanicError{
 		message:  msg,
-		path:     vm.fn.InstructionInfo[vm.pc].Path,
-		position: vm.fn.InstructionInfo[vm.pc].Position,
+		path:     info.Path,
+		position: info.Position,
 	}
 }
 
